@@ -2,8 +2,21 @@
 
 package providers
 
-import "time"
+import (
+	"net"
+	"net/http"
+	"time"
+)
 
-// VerifSetHTTPTimeout raises the overall timeout of the package's IdP client (5 s in production) so
-// that a slow loopback round trip on a loaded machine cannot turn into a spurious provider error.
-func VerifSetHTTPTimeout(d time.Duration) { httpClient.Timeout = d }
+// VerifSetHTTPTimeout raises the time limits of the package's IdP client (5 s overall, 2 s dial in
+// production) so that a slow loopback round trip on a heavily loaded machine cannot turn into a
+// spurious provider error, i.e. a false alarm of the correspondence check. Nothing else changes:
+// same client object, a transport with the same settings except the two limits.
+func VerifSetHTTPTimeout(d time.Duration) {
+	httpClient.Timeout = d
+	httpClient.Transport = &http.Transport{
+		Proxy:               http.ProxyFromEnvironment,
+		Dial:                (&net.Dialer{Timeout: d}).Dial,
+		TLSHandshakeTimeout: d,
+	}
+}
